@@ -175,6 +175,19 @@ check('C14', 'fault_enumeration',
       TB, 'exhaustive single-fault enumeration over every comparison index of every operation in every '
       'state of a BFS state space', 'E3', 'DESIGN.md §4 C14')
 
+check('C17', 'fault_enumeration',
+      'C extension, sanitizer build, allocation-failure hook: for every reachable shape x three construction '
+      'routes (API history, unpickled copy with exact-fit capacities, grown-and-deleted-back with slack) x '
+      'every allocating operation (insert of every absent key - leaf growth, leaf split, interior split, root '
+      'split, first insert -, setdefault, multi-key update and in-place operators, constructor, __setstate__, '
+      'unpickle, union/intersection/difference/weighted forms, conflict merge; multiunion on both sides of the '
+      '800 switch) the module\'s allocations are counted and the operation is re-run once for EVERY allocation '
+      'index with that allocation returning NULL: MemoryError, contents == before or == completed, sound, '
+      'follow-up workload agrees with the model, AddressSanitizer/UBSan silent.',
+      TB + ' The hook (BTREES_VERIF) fails only malloc/realloc calls made by the extension module.',
+      'exhaustive single-fault enumeration over every allocation index of every operation in every state of '
+      'a BFS state space', 'E3', 'DESIGN.md §4 C17')
+
 PENDING = ['C%02d' % i for i in range(1, 20)]
 
 
